@@ -12,11 +12,18 @@ package listMap
 // ListMap as a value.MapStorage: a slice of key/value entries, keys pairwise different; its view (ghost functions of
 // package value) is tied to the slice contents. Both clauses are assumed (representation), see DESIGN.md C13.
 //@ representation ListMap: forall i in 0..len(self) :: forall j in 0..len(self) :: i != j ==> self[i].key != self[j].key
-//@ representation ListMap: forall i in 0..len(self) :: mhas(box(self), self[i].key) && mget(box(self), self[i].key) == self[i].value
+//@ representation ListMap: forall i in 0..len(self) :: mhas(box(self), self[i].key) && mget(box(self), self[i].key) == box(self[i].value)
 //@ representation ListMap: forall k string :: mhas(box(self), k) ==> (exists i in 0..len(self) :: self[i].key == k)
 //@ representation ListMap: mcard(box(self)) == len(self)
 
+// Append replaces the value of an existing key in place or appends a new entry (into spare capacity or a new array);
+// it is used on maps under construction only (value.Map operations build wrappers instead, C09)
 //@ func (l ListMap[V]) Append
-//@   ensures len(result) >= len(l)
+//@   property C13
+//@   safety C05
+//@   ensures[keys-kept] len(result) >= len(l) && (forall i in 0..len(l) :: result[i].key == old(l[i].key))
+//@   ensures[others-kept] forall i in 0..len(l) :: old(l[i].key) != key ==> result[i].value == old(l[i].value)
+//@   ensures[present] exists i in 0..len(result) :: result[i].key == key && result[i].value == v
+//@   ensures[length] (len(result) == len(l) && (exists i in 0..len(l) :: old(l[i].key) == key)) || (len(result) == len(l)+1 && result[len(l)].key == key && (forall i in 0..len(l) :: old(l[i].key) != key))
 //@   assigns l[*]
-//@   trusted
+//@   loop 1 invariant 0 <= rangeidx && rangeidx <= len(l) && (forall j in 0..rangeidx :: l[j].key != key) && (forall j in 0..len(l) :: l[j] == old(l[j]))
